@@ -430,6 +430,20 @@ func init() {
 					items: []wItem{{id: 1, val: []byte{1, 2}}, {reserved: true, nibble: 3}, {pad: true}, {pad: true}, {pad: true}, {pad: true}}}
 				emit(305, kf.tok(), TBytes(kf.encode()))
 			}
+			{
+				// a maximal two-byte block (65535 words) packed with elements, whose last element starts in
+				// the last two bytes of the block and runs 255 bytes past it: if that is accepted, the
+				// decoded elements no longer fit a 16-bit word count and the re-encoding clause is at stake
+				c := r.Fork(31)
+				b := []byte{0x90, 96, 0, 1, 0, 0, 0, 2, 0, 0, 0, 3, 0x10, 0x00, 0xFF, 0xFF}
+				for k := 0; k < 1019; k++ {
+					b = append(append(b, 1, 255), c.Bytes(255)...)
+				}
+				b = append(append(b, 2, 253), c.Bytes(253)...)
+				b = append(append(b, 3, 255), c.Bytes(255)...) // header inside the block, value behind it
+				b = append(b, 0xAA, 0xBB)
+				emit(101, TList{TBytes(b)})
+			}
 			var hist [][]byte // the last well-formed wires: decoded in a row into one receiver (op 101 list)
 			for i := 0; i < n; i++ {
 				c := r.Fork(uint64(i))
